@@ -35,14 +35,26 @@ try:
         meta = json.load(open(os.path.join(d, 'meta.json')))
         if prop in (meta.get('detected_by') or {}):
             variants.append(('M', os.path.basename(d), os.path.join(d, 'patch.diff')))
+        elif meta.get('neutralised_by') and meta.get('property') == prop:
+            # a later fix: commit repaired what this seed relied on: on the current tree it must be silent,
+            # on the tree without that fix the check must fail
+            variants.append(('E', os.path.basename(d) + '@current', os.path.join(d, 'patch.diff')))
+            variants.append(('N', os.path.basename(d) + '@without-' + meta['neutralised_by'], os.path.join(d, 'patch.diff'), meta['neutralised_by']))
     for f in sorted(glob.glob(os.path.join(VERIF, 'corpus', 'equiv', '*.diff'))):
         touched = {l[6:].strip() for l in open(f) if l.startswith('+++ b/')}
         if touched & files:
             variants.append(('E', os.path.basename(f)[:-5], f))
     def run(v):
-        kind, name, patch = v
+        kind, name, patch = v[:3]
         work = os.path.join(tmp, name)
         shutil.copytree(REPO, os.path.join(work, 'repo'), ignore=shutil.ignore_patterns('.git'))
+        if kind == 'N':
+            d = subprocess.run(['git', '-C', REPO, 'show', v[3]], stdout=subprocess.PIPE, text=True).stdout
+            open(os.path.join(work, 'fix.diff'), 'w').write(d)
+            a = subprocess.run(['patch', '-R', '-p1', '-s', '-f', '-i', os.path.join(work, 'fix.diff')], cwd=os.path.join(work, 'repo'), stdout=subprocess.PIPE, stderr=subprocess.STDOUT, text=True)
+            if a.returncode != 0 or not d:
+                shutil.rmtree(work, ignore_errors=True)
+                return (kind, name, 'skipped', 'the fix commit cannot be reversed on the current tree')
         a = subprocess.run(['git', 'apply', '--unsafe-paths', '--directory=' + os.path.join(work, 'repo'), patch], cwd='/', stdout=subprocess.PIPE, stderr=subprocess.STDOUT, text=True)
         if a.returncode != 0:
             a = subprocess.run(['patch', '-p1', '-s', '-f', '-i', patch], cwd=os.path.join(work, 'repo'), stdout=subprocess.PIPE, stderr=subprocess.STDOUT, text=True)
@@ -54,6 +66,8 @@ try:
         new, gone = got - base, base - got
         if kind == 'M':
             return (kind, name, 'ok' if new else 'FAILED', 'fires: ' + '; '.join(sorted(new))[:200] if new else 'seeded break not reported')
+        if kind == 'N':
+            return (kind, name, 'ok' if got else 'FAILED', 'fails without the fix: ' + '; '.join(sorted(got))[:200] if got else 'seeded break not reported on the tree without the fix')
         return (kind, name, 'ok' if not new and not gone else 'FAILED', 'verdict unchanged' if not new and not gone else 'verdict changed: +' + '; '.join(sorted(new))[:300] + ' -' + '; '.join(sorted(gone))[:100])
     with ThreadPoolExecutor(max_workers=6) as ex:
         results = list(ex.map(run, variants))
@@ -65,7 +79,7 @@ for r in results:
     print('CORPUS %s %-28s %-7s %s' % r)
 ev = json.load(open(ev_path))
 ev['coverage']['corpus'] = {
-    'seeded_breaks_run': len([r for r in results if r[0] == 'M' and r[2] != 'skipped']),
+    'seeded_breaks_run': len([r for r in results if r[0] in ('M', 'N') and r[2] != 'skipped']),
     'equivalent_variants_run': len([r for r in results if r[0] == 'E' and r[2] != 'skipped']),
     'failed': [list(r) for r in failed], 'skipped': [r[1] for r in skipped],
     'samples': [list(r) for r in results[:6]],
